@@ -87,6 +87,15 @@ def _m(name, file, old, new, rule=None, count=1):
 
 
 MUTANTS = [
+    _m('yosys-countdown-without-wrap-guard', YB2, "      guard = f\" && {loop_var} <= {start}\"", "      guard = ''", 'R-tr-for'),
+    _m('yosys-countdown-guard-compares-with-end', YB2, "      guard = f\" && {loop_var} <= {start}\"", "      guard = f\" && {loop_var} <= {end}\"", 'R-tr-for'),
+    _m('yosys-negative-constant-step-emitted-as-translated', YB2, "        step_abs = str( -int( node.step._value ) )", "        pass", 'R-tr-for'),
+    _m('yosys-negative-constant-step-keeps-its-sign', YB2, "        step_abs = str( -int( node.step._value ) )", "        step_abs = str( int( node.step._value ) )", 'R-tr-for'),
+    # round-9 kinds
+    dict(name='yosys-for-begin-end-via-local-counts-ir-statements', rule='R-tr-assign', edits=[
+        dict(file=YB2, old="    begin    = ' begin' if s.count_stmts( node.body ) > 1 else ''\n\n    cmp_op", new="    multi    = len( node.body ) > 1\n    begin    = ' begin' if multi else ''\n\n    cmp_op", count=1),
+        dict(file=YB2, old="    if s.count_stmts( node.body ) > 1:\n      src.extend( [ 'end' ] )", new="    if multi:\n      src.extend( [ 'end' ] )", count=1)]),
+    _m('yosys-for-end-counts-ir-statements', YB2, "    if s.count_stmts( node.body ) > 1:\n      src.extend( [ 'end' ] )", "    if len( node.body ) > 1:\n      src.extend( [ 'end' ] )", 'R-tr-assign'),
     # round-8 kinds: aliasing of shared mutable state / loop-control slips / slips in generated text / key-identity collisions
     _m('array-admission-compares-second-element-only', T.RTYPE, "    for x in obj[1:]:\n      assert self.get_rtlir(x) == ref_type, \\\n", "    for x in obj[1:2]:\n      assert self.get_rtlir(x) == ref_type, \\\n", 'R-tr-rtype-eq'),
     _m('array-admission-skips-second-element', T.RTYPE, "    for x in obj[1:]:\n      assert self.get_rtlir(x) == ref_type, \\\n", "    for x in obj[2:]:\n      assert self.get_rtlir(x) == ref_type, \\\n", 'R-tr-rtype-eq'),
@@ -288,6 +297,10 @@ MUTANTS = [
 ]
 
 EQUIV = [
+    _m('yosys-negative-constant-step-by-abs', YB2, "        step_abs = str( -int( node.step._value ) )", "        step_abs = str( abs( int( node.step._value ) ) )"),
+    dict(name='yosys-for-begin-end-condition-in-a-local', edits=[
+        dict(file=YB2, old="    begin    = ' begin' if s.count_stmts( node.body ) > 1 else ''\n\n    cmp_op", new="    multi    = s.count_stmts( node.body ) > 1\n    begin    = ' begin' if multi else ''\n\n    cmp_op", count=1),
+        dict(file=YB2, old="    if s.count_stmts( node.body ) > 1:\n      src.extend( [ 'end' ] )", new="    if multi:\n      src.extend( [ 'end' ] )", count=1)]),
     _m('array-admission-as-all', T.RTYPE, "    for x in obj[1:]:\n      assert self.get_rtlir(x) == ref_type, \\\n             f'all elements of array {obj} must have the same type {repr(ref_type)}!'\n",
        "    assert all( self.get_rtlir(x) == ref_type for x in obj[1:] ), \\\n             f'all elements of array {obj} must have the same type {repr(ref_type)}!'\n"),
     _m('array-admission-loop-over-all-elements', T.RTYPE, "    for x in obj[1:]:\n      assert self.get_rtlir(x) == ref_type, \\\n", "    for x in obj:\n      assert self.get_rtlir(x) == ref_type, \\\n"),
